@@ -214,6 +214,151 @@ def crossing_angles(oa, ob):
     return out
 
 
+def _open_outline(poly):
+    o = cg.Outline(poly + [poly[-1]])       # the Outline closes the chain: drop the closing edge again
+    o.edges = o.edges[:len(poly) - 1]
+    o.chunks = []
+    for k in range(0, len(o.edges), o.CH):
+        es = o.edges[k:k + o.CH]
+        xs = [q[0] for e in es for q in e]; ys = [q[1] for e in es for q in e]
+        o.chunks.append((min(xs), min(ys), max(xs), max(ys), es))
+    return o
+
+
+def curved_crossings(A, B):
+    """points where a CURVED segment of A crosses (or comes within 0.05 of crossing) a CURVED segment of B, from dense polylines of the inputs"""
+    out = []
+    ca = [cg.dense_poly([sp], sag=0.003) + [sp[-1]] for sp in cg.path_pts(A) if len(sp) > 2]
+    cb = [cg.dense_poly([sp], sag=0.003) + [sp[-1]] for sp in cg.path_pts(B) if len(sp) > 2]
+    for pa in ca:
+        oa = _open_outline(pa)
+        for pb in cb:
+            out += [q for q, _ in crossing_angles(oa, _open_outline(pb))]
+    return out
+
+
+def straight_crossings(A, B):
+    """points where a STRAIGHT edge of one input transversally crosses a segment of the other, away from the ends of both (edge parameter in
+    [5e-7, 1 - 5e-7]; more than 0.01 units from the ends of the other segment): crossings the code pre-splits on both operands to ~1e-9"""
+    out = []
+    for X, Y in ((A, B), (B, A)):
+        for sp in cg.path_pts(X):
+            if len(sp) != 2: continue
+            (ax, ay), (bx, by) = sp
+            L = math.hypot(bx - ax, by - ay)
+            if L == 0: continue
+            for tp in cg.path_pts(Y):
+                if len(tp) == 2 and X is B: continue        # straight x straight: once
+                poly = cg.dense_poly([tp], sag=0.003) + [tp[-1]]
+                for c, d in zip(poly, poly[1:]):
+                    r = (bx - ax, by - ay); q = (d[0] - c[0], d[1] - c[1])
+                    den = r[0] * q[1] - r[1] * q[0]
+                    if den == 0: continue
+                    t = ((c[0] - ax) * q[1] - (c[1] - ay) * q[0]) / den
+                    u = ((c[0] - ax) * r[1] - (c[1] - ay) * r[0]) / den
+                    if not (5e-7 <= t <= 1 - 5e-7 and 0 <= u < 1): continue
+                    if abs(den) < math.sin(math.radians(10)) * math.hypot(*r) * math.hypot(*q): continue
+                    pt = (ax + t * r[0], ay + t * r[1])
+                    if min(math.hypot(pt[0] - tp[0][0], pt[1] - tp[0][1]), math.hypot(pt[0] - tp[-1][0], pt[1] - tp[-1][1])) <= 0.01: continue
+                    out.append(pt)
+    return out
+
+
+def disconnection_explained(A, B, op):
+    """Is a disconnected curve-mode result of A.<op>(B) explained by the KNOWN mechanism (known_findings: C13-curve-mode-disconnected)?
+    Decided from the inputs and from what went to and came back from Clipper, never from the result paths.  The known mechanism needs a polygon edge
+    returned by Clipper that is not an edge of a polygon it was given, and that happens on the unchanged code for two reasons only:
+      (i)  Clipper created a vertex of its own where two CURVED outlines cross (the curve/curve split parameters are only good to a few units -- the C06
+           findings -- so the two flattened chains cross away from the split points), or
+      (ii) Clipper dropped vertices of a flattened chain that are exactly collinear after the scaling by 100 (flat parts of eccentric ellipses, the
+           neighbourhood of an axis extreme), so that a returned edge spans several given edges, or
+      (iii) the flattened chains cut each other where the true outlines only come close (a curve passing a corner within the flattening deviation).
+    An edge that is foreign to both flattened operands NEXT TO A CROSSING THAT INVOLVES A STRAIGHT EDGE -- which the unchanged code pre-splits on both operands
+    to 1e-9 -- is none of these: it is reported as a violation."""
+    A2, B2 = cg.path_from_json(cg.path_json(A)), cg.path_from_json(cg.path_json(B))
+    r = cg.record_clip(A2, B2, op, False)
+    rec = r['rec']
+    if not rec.execute or rec.execute[0]['result'] is None: return False, 'no Clipper call recorded'
+    given = [[(float(x), float(y)) for x, y in e['path']] for e in rec.addpath]
+    # grid index of the given vertices (cells of 4 Clipper units = 0.04): vertex -> [(polygon, index)]
+    idx = {}
+    for k, poly in enumerate(given):
+        for n_, v in enumerate(poly): idx.setdefault((int(v[0] // 4), int(v[1] // 4)), []).append((k, n_, v))
+    def given_at(w, thr=1.5):
+        cx, cy = int(w[0] // 4), int(w[1] // 4)
+        return [(k, n_) for dx in (-1, 0, 1) for dy in (-1, 0, 1) for k, n_, v in idx.get((cx + dx, cy + dy), ()) if abs(v[0] - w[0]) <= thr and abs(v[1] - w[1]) <= thr]
+    def spans_collinear(k, a, b, u, v):
+        """the given vertices strictly between indices a and b of polygon k (the shorter way round) all lie on the line u-v"""
+        n_ = len(given[k])
+        for step in (1, -1):
+            cnt = (b - a) * step % n_
+            if cnt == 0 or cnt > n_ // 2 + 1: continue
+            L = math.hypot(v[0] - u[0], v[1] - u[1]) or 1.0
+            if all(abs((given[k][(a + step * m) % n_][0] - u[0]) * (v[1] - u[1]) - (given[k][(a + step * m) % n_][1] - u[1]) * (v[0] - u[0])) / L <= 1.5 for m in range(1, cnt)): return True
+        return False
+    foreign = []
+    for poly in rec.execute[0]['result']:
+        for m in range(len(poly)):
+            u, v = poly[m], poly[(m + 1) % len(poly)]
+            gu, gw = given_at(u), given_at(v)
+            if any(k1 == k2 and spans_collinear(k1, a, b, u, v) for k1, a in gu for k2, b in gw): continue
+            foreign.append((u, v))
+    if not foreign: return True, 'every edge returned by Clipper is an edge it was given, or spans given vertices that are collinear'
+    # a foreign edge next to a crossing that involves a straight edge (pre-split on both operands by the unchanged code) is NOT the known finding;
+    # anywhere else (where two curved outlines cross, or where the flattened chains cut each other although the true outlines only come close) it is
+    sc = straight_crossings(A, B)
+    def dist_to_edge(q, u, v):
+        ux, uy, vx, vy = u[0] / 100.0, u[1] / 100.0, v[0] / 100.0, v[1] / 100.0
+        dx, dy = vx - ux, vy - uy; L2 = dx * dx + dy * dy
+        k = 0.0 if L2 == 0 else max(0.0, min(1.0, ((q[0] - ux) * dx + (q[1] - uy) * dy) / L2))
+        return math.hypot(q[0] - ux - k * dx, q[1] - uy - k * dy)
+    bad = [(u, v, q) for u, v in foreign for q in sc if dist_to_edge(q, u, v) <= 1.0]
+    if bad:
+        (u, v, q) = bad[0]
+        return False, (f'Clipper returned the edge ({u[0] / 100.0}, {u[1] / 100.0}) - ({v[0] / 100.0}, {v[1] / 100.0}), which is not an edge of either flattened operand, next to the crossing '
+                       f'({q[0]:.4f}, {q[1]:.4f}) of a straight edge with the other outline: that crossing was not pre-split on both operands')
+    return True, 'edges foreign to the flattened operands only away from crossings that involve a straight edge (curved x curved crossings, near misses within the flattening deviation)'
+
+
+def thin_rect_pair(rng):
+    """a narrow rectangle through ONE quadrant of a circle / ellipse: the same curved segment is crossed twice, the crossings close together"""
+    R = rng.uniform(60, 120); c = P(rng.uniform(-20, 20), rng.uniform(-20, 20))
+    circ = cg.Circle(R, origin=c) if rng.random() < 0.7 else cg.Ellipse(R, R * rng.uniform(0.7, 1.0), origin=c)
+    ang = math.radians(rng.choice([0, 90, 180, 270]) + rng.uniform(25, 65))
+    w = rng.uniform(8, 30); L = rng.uniform(1.2, 2.2) * R
+    vertical = rng.random() < 0.5
+    centre = P(c.x + R * math.cos(ang), c.y + R * math.sin(ang) + (L / 2 - rng.uniform(10, 30)) * (1 if math.sin(ang) > 0 else -1)) if vertical else \
+             P(c.x + R * math.cos(ang) + (L / 2 - rng.uniform(10, 30)) * (1 if math.cos(ang) > 0 else -1), c.y + R * math.sin(ang))
+    rect = cg.Rectangle(w, L, origin=centre) if vertical else cg.Rectangle(L, w, origin=centre)
+    A, B = (rect, circ) if rng.random() < 0.5 else (circ, rect)
+    return A, B, {'kinds': ['rect', 'circle'] if A is rect else ['circle', 'rect'], 'config': 'transversal-thin-rect'}
+
+
+def corner_graze_pair(rng):
+    """a circle crossing an edge of a rectangle a hair (1e-6 .. 8e-6 of the edge's length) after the corner the edge starts from, at about 45 degrees"""
+    w, h = rng.uniform(20, 240), rng.uniform(20, 240); c = P(rng.uniform(-60, 60), rng.uniform(-60, 60))
+    elong = rng.random() < 0.7
+    if elong:            # a long edge after a short one: the crossing is a smaller fraction of the long edge than of the short one's overshoot
+        w, h = rng.uniform(150, 240), rng.uniform(20, 40)
+        if rng.random() < 0.5: w, h = h, w
+    rect = cg.Rectangle(w, h, origin=c)
+    es = rect.asSegments()
+    e = rng.choice([x_ for x_ in es if x_.length > 100] if elong else es)
+    d = P(e.end.x - e.start.x, e.end.y - e.start.y); L = math.hypot(d.x, d.y); u = P(d.x / L, d.y / L)
+    x = P(e.start.x + u.x * L * rng.uniform(1e-6, 8e-6), e.start.y + u.y * L * rng.uniform(1e-6, 8e-6))
+    R = rng.uniform(25, 100); a = math.atan2(u.y, u.x) + rng.choice([1, -1]) * math.radians(rng.uniform(35, 55)) + rng.choice([0, math.pi])
+    cen = P(x.x + R * math.cos(a + math.pi / 2), x.y + R * math.sin(a + math.pi / 2)); r = math.hypot(x.x - e.start.x, x.y - e.start.y) / L
+    circ = cg.Circle(R, origin=cen)
+    for _ in range(3):
+        # the four-cubic 'circle' is up to 0.03% off a true circle: slide it along the edge until ITS crossing sits at the wanted parameter
+        ts = [i.t2 for s_ in circ.asSegments() for i in s_.intersections(e, limited=False)]
+        if not ts: break
+        t = min(ts, key=lambda v: abs(v - r))
+        cen = P(cen.x + u.x * L * (r - t), cen.y + u.y * L * (r - t)); circ = cg.Circle(R, origin=cen)
+    A, B = (rect, circ) if rng.random() < 0.5 else (circ, rect)
+    return A, B, {'kinds': ['rect', 'circle'] if A is rect else ['circle', 'rect'], 'config': 'transversal-corner-graze'}
+
+
 def region_pair(rng):
     """rect / ellipse / circle, sizes 20..240, centres within +-100, outlines crossing with >= 10 degrees everywhere"""
     for _ in range(200):
@@ -310,6 +455,13 @@ def check_region_sentence(A, B, m, seed2, nprobe=120):
         tol = 1.0 * per + 1e-9
         meas['max_area_err_over_tol'] = max(meas['max_area_err_over_tol'], abs(a_curve - a_flat) / tol if tol else 0.0)
         disconnected = gap > 1.0 or abs(a_curve - a_flat) > tol
+        KNOWN_CLASS = globals()['KNOWN_CLASS']
+        if disconnected:
+            expl, why = disconnection_explained(A, B, op)
+            meas.setdefault('disconnection', []).append([op, expl, why])
+            if not expl:
+                KNOWN_CLASS = 'C13-region'
+                fails.append(('C13-region', f'{op}: the curve-mode result is disconnected (gap {gap:.3f}, area {a_curve:.2f} vs polygon-mode {a_flat:.2f}) and this is NOT the known reconstruction finding: {why}'))
         if gap > 1.0:
             fails.append((KNOWN_CLASS, f'{op}: curve-mode result path {where[0]} ({where[4]} segments): segment {where[1]} ends at {where[2]} but the next starts at {where[3]} (gap {gap:.3f} > 1 unit)'))
         if abs(a_curve - a_flat) > tol:
@@ -378,6 +530,8 @@ def search(ctx):
     pairs2 = [(cg.Circle(50, origin=P(0, 0)), cg.Circle(50, origin=P(41, 0)), {'kinds': ['circle', 'circle'], 'config': 'transversal-D17'}),
               (cg.Rectangle(100, 100, origin=P(0, 0)), cg.Rectangle(100, 100, origin=P(50, 50)), {'kinds': ['rect', 'rect'], 'config': 'transversal-squares'})]
     for i in range(ctx.n(12, 500)): pairs2.append(region_pair(rng))
+    for i in range(ctx.n(8, 150)): pairs2.append(thin_rect_pair(rng))
+    for i in range(ctx.n(8, 150)): pairs2.append(corner_graze_pair(rng))
     for A, B, m in pairs2:
         seed2 = rng.randrange(1 << 30)
         f, meas = check_region_sentence(A, B, m, seed2)
